@@ -212,6 +212,24 @@ ROUND4 = {
  "C18": " Round 4: the footprint rules quantify over every operation of the class (each non-construction member that writes a work buffer or runs a plan is discovered), not only over the three that exist today; R2 covers sums built in locals.",
  "C20": " Round 4: (R8) no numeric option has a character value type (boost would take the first character of the argument); this rule found a genuine defect (ForceOpenGLVersion), repaired in /repo.",
 }
+ROUND5 = {
+ "C01": " Round 5: (R9) no cell index or size of the source-map classes passes through an integer type of 16 bits or fewer (integral conversions of the type-checked AST); R3 states the tolerated switch-row defect as the statement does (proportional to the decrement with a factor independent of the cell size).",
+ "C02": " Round 5: (R8) 'bit for bit' presupposes the default floating-point environment: no function sets the MXCSR/rounding/flush-to-zero state, no inline assembly, no value-changing compile flag in the compile database; (R9) index width as in C01.",
+ "C03": " Round 5: the drift table is judged in closed form (E8: bounded unrolling with the number of slip coefficients main passes), so a Horner or pre-scaled-coefficient fill is decided, not skipped; (R7) an FPType of 'none' adds no Fokker-Planck term (re-evaluates C04 R1/R2).",
+ "C04": " Round 5: (R7) every bunch gets the RF kick (re-evaluates C08 R1/R2).",
+ "C06": " Round 5: (R6) the field owns what it was set up with: no reference member, no pointer member bound to a by-reference constructor parameter.",
+ "C07": " Round 5: (R6) the wake is driven by the profile itself (re-evaluates C06 R1).",
+ "C08": " Round 5: R2 recognises a block-wise fill of the offset table and judges which source block goes to which bunch.",
+ "C11": " Round 5: (R5) the start-file name given by the user reaches main unchanged (only the documented '/dev/null' spelling is cleared; re-evaluates C20 R2).",
+ "C12": " Round 5: R1 covers every observer-conditional call anywhere in main (forward may-analysis with must-write kills over main's CFG): what such a call writes is not read by the simulation before it is rewritten.",
+ "C13": " Round 5: (R9) no alias carries a default that would overwrite the primary read back from the saved file (re-evaluates C20 R3).",
+ "C15": " Round 5: R3 also derives the fluctuation-dissipation balance of the stochastic tracker from the constructor: sigma^2*delta_E^2 == 2*decrement, zero mean.",
+ "C16": " Round 5: (R7) no member reachable from outside the impedance classes changes the number of samples of a constructed impedance (growing included).",
+ "C17": " Round 5: (R8) at every PhaseSpace::setSize the bunch count is the size of the filling handed to the constructions that follow; R6 keeps the memory-safety half of the sample-count invariant (grow-only changes accepted, C16 R7 owns the count).",
+ "C18": " Round 5: (R4) nothing but the FFT work buffers is carried between requests: every other member written outside construction is stored, by each function that reads it, before the read on every path (a conditionally refreshed cache is reported; an exact memo keyed on the argument is reported as not analysable).",
+ "C19": " Round 5: (R5) in both kick formulas a phase step acts as a shift of the columns by phase/(bl2phase*delta) and the amplitude multiplies the whole position- and phase-dependent part.",
+ "C20": " Round 5: (R9) exceptions of the boost parsers leave parse() (a handler that does not re-throw would turn an unknown option or malformed value into a success status).",
+}
 RD_TEXT = (" Dimensional consistency (rule RD, engine E7): a units-of-measure inference over the whole program (dimension variables per storage location, "
            "linear constraints from every arithmetic expression, solved over the rationals; units taken from the options' help texts, the physcons constants "
            "and the unit names used as keys) shows that the quantities this property depends on have the dimensions their use demands, for every parameter set; "
@@ -225,6 +243,8 @@ for _p, _t in ROUND3.items():
     CLAIMED[_p]["text"] = CLAIMED[_p]["text"].rstrip() + _t
 for _p, _t in ROUND4.items():
     CLAIMED[_p]["text"] = CLAIMED[_p]["text"].rstrip() + _t
+for _p, _t in ROUND5.items():
+    CLAIMED[_p]["text"] = CLAIMED[_p]["text"].rstrip() + _t
 CLAIMED["C13"]["note"] = CLAIMED["C13"]["note"].replace("two recorded as known findings (ForceOpenGLVersion type, run_anyway skipped)", "ForceOpenGLVersion repaired later (93250ff), run_anyway skipped is a known finding")
 CLAIMED["C19"]["technique"] = "call-argument role agreement (resolved constructors), symbolic folding of the modulation expressions, life-cycle typestate (may-dataflow over the CFGs of constructors and apply) and exactly-once counts on the CFG"
 CLAIMED["C09"]["technique"] = CLAIMED["C09"]["technique"] + "; freshness typestate on main's CFG for the projection->moment dependence"
@@ -233,6 +253,11 @@ CLAIMED["C20"]["technique"] = CLAIMED["C20"]["technique"] + "; conversion-kind a
 for _p in ("C03", "C04", "C05", "C06", "C07", "C09", "C10", "C16", "C19"):
     CLAIMED[_p]["technique"] = CLAIMED[_p]["technique"] + "; dimensional analysis (units-of-measure type inference, linear constraints over Q)"
 CLAIMED["C03"]["technique"] = CLAIMED["C03"]["technique"] + "; cross-procedural substitution (field <- constructor parameter <- main's argument <- main's definitions) decided by sympy normal forms"
+CLAIMED["C03"]["technique"] = CLAIMED["C03"]["technique"] + "; closed form of the drift table by bounded unrolling in the polynomial domain (E8)"
+CLAIMED["C12"]["technique"] = CLAIMED["C12"]["technique"] + "; forward may-taint analysis with must-write kills over main's CFG for observer-conditional calls"
+CLAIMED["C18"]["technique"] = CLAIMED["C18"]["technique"] + "; define-before-use analysis of every member written outside construction"
+CLAIMED["C02"]["technique"] = CLAIMED["C02"]["technique"] + "; who-may-call rule for floating-point environment setters, compile-flag scan of the compile database, cast-kind analysis of index conversions"
+CLAIMED["C01"]["technique"] = CLAIMED["C01"]["technique"] + "; cast-kind analysis of index conversions"
 NOT_YET = "check not built yet in this round (static rule designed in DESIGN.md §3, not implemented)"
 NA = {}
 
